@@ -53,6 +53,9 @@ enum Op {
     /// vault: `op` withdraws/redeems `a` on behalf of `owner`, assets to `op`
     VWithdraw { op: usize, owner: usize, a: i128 },
     VRedeem { op: usize, owner: usize, a: i128 },
+    /// as VRedeem / VWithdraw but the assets go back to the owner (receiver != operator)
+    VRedeemToOwner { op: usize, owner: usize, a: i128 },
+    VWithdrawToOwner { op: usize, owner: usize, a: i128 },
     /// vault: `op` deposits `a` assets of `from` (asset allowance when op != from), shares to `op`
     VDeposit { op: usize, from: usize, a: i128 },
     /// approve on the underlying asset token (vault world)
@@ -136,6 +139,8 @@ impl Tok {
             Op::BurnFrom { s, from, a } => (c, "burn_from", (u(*s), u(*from), *a).into_val(e)),
             Op::VWithdraw { op, owner, a } => (c, "withdraw", (*a, u(*op), u(*owner), u(*op)).into_val(e)),
             Op::VRedeem { op, owner, a } => (c, "redeem", (*a, u(*op), u(*owner), u(*op)).into_val(e)),
+            Op::VRedeemToOwner { op, owner, a } => (c, "redeem", (*a, u(*owner), u(*owner), u(*op)).into_val(e)),
+            Op::VWithdrawToOwner { op, owner, a } => (c, "withdraw", (*a, u(*owner), u(*owner), u(*op)).into_val(e)),
             Op::VDeposit { op, from, a } => (c, "deposit", (*a, u(*op), u(*from), u(*op)).into_val(e)),
             Op::AssetApprove { o, s, a, live } => (i.asset.clone().unwrap(), "approve", (u(*o), u(*s), *a, *live).into_val(e)),
             Op::Advance(_) => unreachable!(),
@@ -281,6 +286,10 @@ impl World for Tok {
                 for a in dedup(vec![0, 1, al, al.saturating_add(1)]) {
                     v.push(Op::VRedeem { op: *s, owner: *from, a });
                     v.push(Op::VWithdraw { op: *s, owner: *from, a });
+                    if a > 0 {
+                        v.push(Op::VRedeemToOwner { op: *s, owner: *from, a });
+                        v.push(Op::VWithdrawToOwner { op: *s, owner: *from, a });
+                    }
                 }
                 let aal = o.aallow[*from][*s];
                 for a in dedup(vec![0, 1, aal, aal.saturating_add(1)]) {
@@ -323,6 +332,7 @@ impl World for Tok {
             Op::TransferFrom { .. } => "transfer_from",
             Op::Burn { .. } => "burn",
             Op::BurnFrom { .. } => "burn_from",
+            Op::VRedeemToOwner { .. } | Op::VWithdrawToOwner { .. } => "vault.redeem/withdraw(operator, receiver=owner)",
             Op::VWithdraw { op, owner, .. } if op != owner => "vault.withdraw(operator)",
             Op::VWithdraw { .. } => "vault.withdraw(owner)",
             Op::VRedeem { op, owner, .. } if op != owner => "vault.redeem(operator)",
@@ -419,7 +429,10 @@ impl World for Tok {
                 spend(&mut x_allow, *from, *s, *a, "token")?;
                 moved_from = Some((*from, *a));
             }
-            Op::VWithdraw { op: oper, owner, .. } | Op::VRedeem { op: oper, owner, .. } => {
+            Op::VWithdraw { op: oper, owner, .. }
+            | Op::VRedeem { op: oper, owner, .. }
+            | Op::VRedeemToOwner { op: oper, owner, .. }
+            | Op::VWithdrawToOwner { op: oper, owner, .. } => {
                 expect_principal = *oper;
                 let burned = pre.bal[*owner] - post.bal[*owner];
                 if oper != owner {
@@ -440,7 +453,7 @@ impl World for Tok {
         for k in 0..N {
             let allowed_share = match op {
                 Op::Transfer { from, .. } | Op::Burn { from, .. } | Op::TransferFrom { from, .. } | Op::BurnFrom { from, .. } => k == *from,
-                Op::VWithdraw { owner, .. } | Op::VRedeem { owner, .. } => k == *owner,
+                Op::VWithdraw { owner, .. } | Op::VRedeem { owner, .. } | Op::VRedeemToOwner { owner, .. } | Op::VWithdrawToOwner { owner, .. } => k == *owner,
                 _ => false,
             };
             ensure!(post.bal[k] >= pre.bal[k] || allowed_share, "unauthorized-decrease", "{:?} decreased the balance of {}", op, NAMES[k]);
